@@ -55,7 +55,19 @@ func verifCheckRead(id int, text string, code, union, rest string, actionOf map[
 	}
 	var node Node = root
 	v := &RootVistor{}
-	DoWalker(&node, v)
+	refused := func() (r bool) {
+		defer func() {
+			if recover() != nil {
+				r = true
+			}
+		}()
+		DoWalker(&node, v)
+		return false
+	}()
+	verifAssert(!refused, "C10: a rendering of a valid specification was refused (the visitors gave up)")
+	if refused {
+		return
+	}
 	exp := verifExpRules[id]
 	verifAssert(len(v.rules) == len(exp), "C10: number of rules read differs from the file")
 	if len(v.rules) != len(exp) {
@@ -120,11 +132,56 @@ func VerifCanonical(id int) {
 	verifCheckRead(id, verifRender(id, nil), verifExpCode[id], verifExpUnion[id], verifExpRest[id], nil)
 }
 
+// VerifNoEpilogue: the second %% and the epilogue are optional; without them nothing is
+// carried over as epilogue.
+func VerifNoEpilogue(id int) {
+	n := len(verifPieces[id])
+	out := ""
+	for i := 0; i < n-2; i++ {
+		out += verifPieces[id][i] + verifSeps[id][i]
+	}
+	verifCheckRead(id, out, verifExpCode[id], verifExpUnion[id], "", nil)
+}
+
+// VerifBodies: the prologue (which = 0), the %union body (1) or the epilogue (2) consists of m
+// arbitrary bytes of a small alphabet (no braces, quotes, '%' or '/': their nesting rules are
+// the target language's business); the bytes must arrive unchanged.
+func VerifBodies(id, which, m int) {
+	body := verifString("body", m)
+	for i := 0; i < len(body); i++ {
+		b := body[i]
+		verifAssume(b == 'a' || b == '1' || b == '_' || b == ' ' || b == '\t' || b == '\n' || b == '\r' || b == ';' || b == '*')
+	}
+	n := len(verifPieces[id])
+	out := ""
+	for i, p := range verifPieces[id] {
+		switch {
+		case which == 0 && i == 0:
+			p = "%{" + body + "%}"
+		case which == 1 && i == 2:
+			p = "{" + body + "}"
+		case which == 2 && i == n-1:
+			p = body
+		}
+		out += p + verifSeps[id][i]
+	}
+	code, union, rest := verifExpCode[id], verifExpUnion[id], verifExpRest[id]
+	switch which {
+	case 0:
+		code = body
+	case 1:
+		union = body
+	default:
+		rest = body
+	}
+	verifCheckRead(id, out, code, union, rest, nil)
+}
+
 // VerifLayout: m arbitrary whitespace bytes inserted after separator `hole`.
 func VerifLayout(id, hole, m int) {
 	ws := verifString("ws", m)
 	for i := 0; i < len(ws); i++ {
-		verifAssume(ws[i] == ' ' || ws[i] == '\t' || ws[i] == '\n')
+		verifAssume(ws[i] == ' ' || ws[i] == '\t' || ws[i] == '\n' || ws[i] == '\r')
 	}
 	verifCheckRead(id, verifRender(id, map[int]string{hole: ws}), verifExpCode[id], verifExpUnion[id], verifExpRest[id], nil)
 }
